@@ -20,7 +20,10 @@ package main
 // real marshaler runs.
 
 import (
+	"fmt"
 	"go/types"
+	"strconv"
+	"strings"
 
 	"golang.org/x/tools/go/ssa"
 )
@@ -81,9 +84,25 @@ func (in *Interp) tokenMarshal(fr *frame, v Value) Value {
 	if in.marshalTab == nil {
 		in.marshalTab = map[uint64]marshalEntry{}
 	}
-	in.marshalSeq++
-	id := in.marshalSeq
-	in.marshalTab[id] = marshalEntry{t: elem, snap: snap}
+	// equal contents marshal to equal bytes (the real marshaler is a function
+	// of the value): reuse the id of a structurally equal concrete snapshot
+	var id uint64
+	key, keyOK := marshalKey(snap, 0)
+	if keyOK {
+		key = elem.String() + "|" + key
+		if in.marshalByKey == nil {
+			in.marshalByKey = map[string]uint64{}
+		}
+		id = in.marshalByKey[key]
+	}
+	if id == 0 {
+		in.marshalSeq++
+		id = in.marshalSeq
+		in.marshalTab[id] = marshalEntry{t: elem, snap: snap}
+		if keyOK {
+			in.marshalByKey[key] = id
+		}
+	}
 	pkg := in.prog.ImportedPackage(h07Repo)
 	if pkg == nil || pkg.Var("TypeBytes") == nil {
 		unsupported("marshal intrinsic: package %s not loaded", h07Repo)
@@ -232,4 +251,98 @@ func (in *Interp) tokenUnmarshal(fr *frame, val Value, dst Value) Value {
 	}
 	in.store(fr, target, cp)
 	return Iface{}
+}
+
+// marshalKey renders a fully concrete value canonically (pointers are
+// followed; identity of pointers to zed types is kept by address).
+func marshalKey(v Value, depth int) (string, bool) {
+	if depth > 12 {
+		return "", false
+	}
+	switch v := v.(type) {
+	case *Term:
+		if !v.IsConst() {
+			return "", false
+		}
+		return fmt.Sprintf("t%d:%x", v.sort.W, v.cval), true
+	case *Str:
+		s, ok := strConc(v)
+		return "s" + strconv.Quote(s), ok
+	case Ptr:
+		if v.isNil() {
+			return "pnil", true
+		}
+		if v.sym != nil {
+			return "", false
+		}
+		k, ok := marshalKey(v.base[v.i], depth+1)
+		return "&" + k, ok
+	case Iface:
+		if v.t == nil {
+			return "inil", true
+		}
+		// zed.Type implementations are canonical objects of their context:
+		// identify them by address, not by content (records carry lookup maps)
+		if pt, isP := v.t.(*types.Pointer); isP {
+			if n, isN := types.Unalias(pt.Elem()).(*types.Named); isN && n.Obj().Pkg() != nil && n.Obj().Pkg().Path() == h07Repo && strings.HasPrefix(n.Obj().Name(), "Type") {
+				if p, isPtr := v.v.(Ptr); isPtr && !p.isNil() && p.sym == nil {
+					return fmt.Sprintf("ztype(%s)%p", n.Obj().Name(), &p.base[p.i]), true
+				}
+			}
+		}
+		k, ok := marshalKey(v.v, depth+1)
+		return "i(" + v.t.String() + ")" + k, ok
+	case Struct:
+		var sb strings.Builder
+		sb.WriteString("{")
+		for _, f := range v {
+			k, ok := marshalKey(f, depth+1)
+			if !ok {
+				return "", false
+			}
+			sb.WriteString(k + ";")
+		}
+		sb.WriteString("}")
+		return sb.String(), true
+	case Array:
+		var sb strings.Builder
+		sb.WriteString("[")
+		for _, f := range v {
+			k, ok := marshalKey(f, depth+1)
+			if !ok {
+				return "", false
+			}
+			sb.WriteString(k + ";")
+		}
+		sb.WriteString("]")
+		return sb.String(), true
+	case Slice:
+		if v == nil {
+			return "snil", true
+		}
+		var sb strings.Builder
+		sb.WriteString("<")
+		for _, f := range v {
+			k, ok := marshalKey(f, depth+1)
+			if !ok {
+				return "", false
+			}
+			sb.WriteString(k + ";")
+		}
+		sb.WriteString(">")
+		return sb.String(), true
+	case *Map:
+		if v == nil {
+			return "mnil", true
+		}
+		return "", false
+	case *Closure:
+		if v == nil {
+			return "fnil", true
+		}
+		return "", false
+	case *Chan:
+		return "", v == nil
+	}
+	return "", false
 }
